@@ -67,6 +67,7 @@ type fnSpec struct {
 	from string            // translate only the TAIL of the body: from the first top-level statement whose source text starts with this
 	vars map[string]string // ... and the variables the skipped part declares that the tail uses: name -> Go type
 	ptypes map[string]string // parameters translated at another Go type than declared (a path passed as a string)
+	as     string            // name of the generated definitions (a method and a function of the same name)
 }
 
 // a package-level map variable kept in the world
@@ -122,6 +123,7 @@ type area struct {
 	eqs     map[string]string              // further types compared with == : Go type -> boolean equality
 	shadow  bool                           // `:=` in a nested scope may shadow a name that is never assigned with `=`
 	wderefs map[string]wderef              // pointers to a slice kept in the world: *p reads it, *p = append(*p, x) extends it
+	zeros   map[string]string              // zero value (nil) of further types
 	mapvals map[string]string              // pseudo map types: Go type of the values (comma-ok lookups)
 	refmaps map[string]string              // types of REFERENCES to world maps (a map passed as an argument): m[k] = v -> (coq m k v w)
 	wlooks  map[string]string              // "<receiver type>.<path>" or "<...>.<method>()": v, ok := g.m[k] -> (coq k w) : V * bool
@@ -560,6 +562,9 @@ func (t *translator) coqType(n ast.Node, goType string) string {
 func (t *translator) erased(goType string) bool { return t.a.types[goType] == "-" }
 
 func (t *translator) zero(n ast.Node, goType string) string {
+	if z, ok := t.a.zeros[goType]; ok {
+		return z
+	}
 	if t.a.ptrs[goType] {
 		return "None"
 	}
@@ -615,6 +620,7 @@ type signature struct {
 	nouts   int
 	ids     int // leading type-id parameters
 	recv    string // methods: the receiver's base type
+	drop    []bool // per declared parameter (receiver excluded): erased, not passed
 }
 
 // the translated function a call refers to: F(...) or pkg.F(...) for a package of the area
@@ -2438,14 +2444,23 @@ func (t *translator) callTranslated(x *ast.AssignStmt, c *ast.CallExpr, name str
 	if sg.nouts > 0 || sg.ids > 0 {
 		unsup(c, "call of %s (writes through a parameter or takes a type id)", name)
 	}
-	if len(c.Args) != len(sg.params) {
+	callArgs := c.Args
+	if len(sg.drop) == len(c.Args) {
+		callArgs = nil
+		for i, a := range c.Args {
+			if !sg.drop[i] {
+				callArgs = append(callArgs, a)
+			}
+		}
+	}
+	if len(callArgs) != len(sg.params) {
 		unsup(c, "call of %s with %d arguments", name, len(c.Args))
 	}
 	if len(lhs) != len(sg.results) {
 		unsup(x, "%s returns %d values", name, len(sg.results))
 	}
 	args := ""
-	for i, a := range c.Args {
+	for i, a := range callArgs {
 		if t.mayPanic(a, ev) {
 			unsup(a, "argument that can panic")
 		}
@@ -3063,6 +3078,9 @@ func (t *translator) emit(name, def string) {
 // peel `return func(...) ... { ... }` / `return Conv(func(...) ... { ... })` layers
 func (t *translator) function(fd *ast.FuncDecl, spec fnSpec) {
 	t.fn = fd.Name.Name
+	if spec.as != "" {
+		t.fn = spec.as
+	}
 	typeInst = spec.inst
 	t.ids = map[string]bool{}
 	t.idList = spec.ids
@@ -3113,6 +3131,19 @@ func (t *translator) function(fd *ast.FuncDecl, spec fnSpec) {
 		}
 	}
 	addParams(fd.Type.Params)
+	var dropped []bool
+	if fd.Type.Params != nil {
+		for _, f := range fd.Type.Params.List {
+			typ := typeString(f.Type)
+			for _, n := range f.Names {
+				if o, isO := spec.ptypes[n.Name]; isO {
+					dropped = append(dropped, t.erased(o))
+				} else {
+					dropped = append(dropped, t.erased(typ) || n.Name == "_")
+				}
+			}
+		}
+	}
 	body := fd.Body.List
 	if spec.from != "" {
 		body = t.tailFrom(fd, spec, ev)
@@ -3203,7 +3234,7 @@ func (t *translator) function(fd *ast.FuncDecl, spec fnSpec) {
 	// a function that only tests and returns panic-free expressions is a plain Gallina function
 	if len(t.ret) == 1 && len(t.outs) == 0 && len(t.idList) == 0 && len(prefix) == 0 {
 		if term, ok := t.pureBody(body, ev); ok {
-			sg := &signature{pure: true, results: t.ret, recv: recvBase(fd)}
+			sg := &signature{pure: true, results: t.ret, recv: recvBase(fd), drop: dropped}
 			for _, p := range t.pars {
 				sg.params = append(sg.params, p.typ)
 			}
@@ -3262,7 +3293,7 @@ func (t *translator) function(fd *ast.FuncDecl, spec fnSpec) {
 		return "(OutOfFuel, w)" // unreachable: Go rejects a missing return
 	}
 	term := t.block(all, ev, nil, true, end)
-	sg := &signature{results: t.ret, nouts: len(t.outs), ids: len(t.idList), recv: recvBase(fd)}
+	sg := &signature{results: t.ret, nouts: len(t.outs), ids: len(t.idList), recv: recvBase(fd), drop: dropped}
 	for _, p := range t.pars {
 		sg.params = append(sg.params, p.typ)
 	}
